@@ -91,6 +91,8 @@ let run mode file =
                                       | ("check" :: _) as c -> c
                                       | ("bstats" :: _) as c -> c
                                       | ["dump"; "w"] -> (match res with "ok" :: d :: _ -> pending_dump := d | ["ok"] -> pending_dump := "t:" | _ -> ()); ["skip"]
+                                      | "x" :: "w" :: _ -> pending_dump := "?"; ["skip"]      (* the dump of a transaction counts only if nothing was changed after it *)
+                                      | ["beginw"] -> pending_dump := "?"; ["skip"]
                                       | ["commit"] -> (match res with "ok" :: _ -> last_dump := !pending_dump | _ -> ()); ["skip"]
                                       | "commitfail" :: _ -> (match res with "ok" :: _ -> last_dump := !pending_dump | _ -> last_dump := "?"); ["skip"]
                                       | "open" :: _ -> ["skip"]
